@@ -10,9 +10,13 @@ pub enum Alphabet {
     Grid(u32),
     /// the `k` smallest words whose multiply-shift image under range `r` is 0..k-1
     Rep { r: u64, k: u32 },
-    /// the words of `Grid(m)` followed by those of `Rep{r,k}`: for support /
-    /// membership oracles only (leaf weights carry no meaning)
+    /// the words of `Grid(m)` followed by those of `Rep{r,k}` (whose first word is 0) and the
+    /// all-ones word: for support / membership oracles only (leaf weights carry no meaning)
     Mixed { m: u32, r: u64, k: u32 },
+    /// the words of `Grid(m)` followed by the two extreme words 0 and all-ones: for oracles that
+    /// must hold on *every* stream (structure, membership), where the extremes are the words a
+    /// hand-rolled threshold or scaling is most likely to get wrong (leaf weights carry no meaning)
+    Ext(u32),
 }
 
 impl Alphabet {
@@ -20,7 +24,8 @@ impl Alphabet {
         match *self {
             Alphabet::Grid(m) => m,
             Alphabet::Rep { k, .. } => k,
-            Alphabet::Mixed { m, k, .. } => m + k,
+            Alphabet::Mixed { m, k, .. } => m + k + 1,
+            Alphabet::Ext(m) => m + 2,
         }
     }
     pub fn word32(&self, j: u32) -> u32 {
@@ -38,8 +43,19 @@ impl Alphabet {
             Alphabet::Mixed { m, r, k } => {
                 if j < m {
                     Alphabet::Grid(m).word32(j)
-                } else {
+                } else if j < m + k {
                     Alphabet::Rep { r, k }.word32(j - m)
+                } else {
+                    u32::MAX
+                }
+            }
+            Alphabet::Ext(m) => {
+                if j < m {
+                    Alphabet::Grid(m).word32(j)
+                } else if j == m {
+                    0
+                } else {
+                    u32::MAX
                 }
             }
         }
@@ -58,8 +74,19 @@ impl Alphabet {
             Alphabet::Mixed { m, r, k } => {
                 if j < m {
                     Alphabet::Grid(m).word64(j)
-                } else {
+                } else if j < m + k {
                     Alphabet::Rep { r, k }.word64(j - m)
+                } else {
+                    u64::MAX
+                }
+            }
+            Alphabet::Ext(m) => {
+                if j < m {
+                    Alphabet::Grid(m).word64(j)
+                } else if j == m {
+                    0
+                } else {
+                    u64::MAX
                 }
             }
         }
